@@ -386,7 +386,7 @@ pub fn property() -> Property {
         post: None,
         parts: vec![
             Box::new(Part { name: "selector-sweep", driver: Driver::Enum(sweep_cases), prop: prop_sweep, exhaustive: true }),
-            Box::new(Part { name: "textures", driver: Driver::Gen(strategy, 240_000, 960_000), prop, exhaustive: false }),
+            Box::new(Part { name: "textures", driver: Driver::Gen(strategy, 240_000, 2_880_000), prop, exhaustive: false }),
         ],
     }
 }
